@@ -635,6 +635,8 @@ def call (C : Crypto) (cx : ICtx) (func : String) (args : List Bytes) : M (List 
       emit cx "trusted_address_removed_event" [chain] [[]])
   | "pause", [] => unit (do require (cx.caller == cx.owner); setI { st with paused := true })
   | "unpause", [] => unit (do require (cx.caller == cx.owner); setI { st with paused := false })
+  -- the protocol's `upgradeContract(code, metadata)` run by the owner: `upgrade()` is empty
+  | "upgradeContract", [_, _] => unit (require (cx.caller == cx.owner))
   | "transferOperatorship", [a] =>
     match topFixed 32 a with
     | some a => do
